@@ -195,7 +195,7 @@ func c05R5(c *Ctx, r *Report, rule string) {
 	var limit, chunk int64 = -1, -1
 	if p := c.ByPath[modPath+"/layer4"]; p != nil {
 		for _, nm := range []string{"MaxMatchingBytes", "prefetchChunkSize"} {
-			if o := p.Types.Scope().Lookup(nm); o != nil {
+			if o := scopeLookup(p.Types, nm); o != nil {
 				if cst, ok := o.(interface {
 					Val() interface{ String() string }
 				}); ok {
@@ -203,8 +203,8 @@ func c05R5(c *Ctx, r *Report, rule string) {
 				}
 			}
 		}
-		limit = constOf(p.Types.Scope().Lookup("MaxMatchingBytes"))
-		chunk = constOf(p.Types.Scope().Lookup("prefetchChunkSize"))
+		limit = constOf(scopeLookup(p.Types, "MaxMatchingBytes"))
+		chunk = constOf(scopeLookup(p.Types, "prefetchChunkSize"))
 	}
 	r.check(limit > 0 && chunk > 0 && chunk <= limit, rule, "layer4", "constants", "-", fmt.Sprintf("MaxMatchingBytes=%d prefetchChunkSize=%d", limit, chunk), fmt.Sprintf("MaxMatchingBytes=%d / prefetchChunkSize=%d are not positive constants with chunk <= limit", limit, chunk))
 	if limit <= 0 || chunk <= 0 {
